@@ -226,6 +226,7 @@ func c04Scenarios(tier string) []*core.Scenario {
 	scs = append(scs, mk("far_gaps", []string{"JMP", "JE", "CALL", "JNLE"}, farGaps, rule, false))
 	scs = append(scs, mk("behind_second_org", []string{"JMP", "JE", "CALL"}, append(append([]int{}, boundary...), 32766, 32767, 32768), rule+" - here behind a SECOND ORG (three data bytes under ORG 0x100 come first)", true))
 	scs = append(scs, c04RelaxScenario(tier))
+	scs = append(scs, c04RelaxEdges())
 	// far jumps
 	segs := []int64{0, 1, 8, 0x10, 0xffff, 0x10000, 0x10008}
 	offs := []int64{0, 1, 0x1b, 0x7f, 0x80, 0xff, 0x100, 0x7fff, 0x8000, 0xffff, 0x10000, 0x7fffffff, 0x80000000, 0xffffffff, 0x100000000, 0x100000010}
